@@ -387,14 +387,15 @@ func (f Field) Init(def, rep int) string {
 			if fld.Primitive() {
 				if (fld.Parent.IsRoot() || fld.Parent.Defined) && fld.Parent.RepetitionType == Repeated && (rep == 0 || rep == reps) { //Should this be a check for repeated anywhere in the full chain?
 					right = fmt.Sprintf(right, "vals[nVals]%s")
-				} else if (fld.Parent.Parent == nil || fld.Parent.Defined) && rep == 0 {
+				} else if (fld.Parent.Parent == nil || fld.Parent.Defined) && rep == 0 && maxRep == 0 {
 					right = fmt.Sprintf(right, "vals[0]%s")
 				} else if j == 0 && maxRep > 0 {
 					// the left side already names the leaf itself
 					right = fmt.Sprintf(right, "vals[nVals]%s")
 				} else if j == 0 {
 					right = fmt.Sprintf(right, "vals[0]%s")
-				} else if fld.Parent.RepetitionType == Repeated {
+				} else if fld.Parent.RepetitionType == Repeated || maxRep > 0 {
+					// below a repeated field the values are consumed one by one
 					right = fmt.Sprintf(right, fmt.Sprintf("%s: vals[nVals]%%s", fld.Name))
 				} else {
 					right = fmt.Sprintf(right, fmt.Sprintf("%s: vals[0]%%s", fld.Name))
